@@ -104,4 +104,5 @@ def build(u):
     u.env("life_env.rs")
     u.free_fn(h, "payment_lifecycle", "htlc_manager")
     u.free_fn(h, "resolve", "htlc_manager")
+    u.auto_here(h, "htlc_manager")
     u.raw("}\n} // verus!\nfn main() {}\n")
